@@ -1,11 +1,24 @@
 import OciModel.BlobReader
 import OciModel.Sha256
+import OciModel.Ref
 namespace OciModel.Driver.BlobReader
 open OciModel OciModel.BlobReader
 
 /-- `rd <verify 0|1|2> <size> <digest> <chunk>*` → `eof <data>` | `err <relayed>`;
 `2` = the whole blob asked for through the range call (`GetBlobRange(…, 0, -1)`), `3` = a manifest read
 through its tag, `4` = a manifest by digest: all verified like `1`. -/
+def driveAsked : List String → String
+  | _ :: size :: hdr :: asked :: chunks =>
+    match size.toNat?, Hex.decodeTok hdr, Hex.decodeTok asked, chunks.mapM Hex.decodeTok with
+    | some size, some hdr, some asked, some cs =>
+      -- a header that is not a digest is refused before any reader exists
+      if hdr ≠ [] ∧ Ref.isDigest hdr = false then "open-error" else
+      match readAll Sha256.digest true size (descDigest asked hdr) [] cs with
+      | .eof b => "eof " ++ Hex.encodeTok b
+      | r => "err " ++ Hex.encodeTok r.relayed
+    | _, _, _, _ => "bad-op"
+  | _ => "bad-op"
+
 def drive : List String → String
   | v :: size :: dg :: chunks =>
     match size.toNat?, Hex.decodeTok dg, chunks.mapM Hex.decodeTok with
